@@ -21,6 +21,55 @@ RELEVANT_HANDLERS = {None, "BaseException", "Exception", "SyntaxError", "CMakeSy
                      "UnicodeDecodeError", "UnicodeError", "ValueError", "SystemExit", "StandardError"} | RECOG
 
 
+def with_super_calls_expanded(repo: Repo, cls: str, fn: ast.FunctionDef, depth: int = 0) -> ast.FunctionDef:
+    """A copy of `fn` in which a statement  super().m(...)  /  self._helper(...)  that resolves to a method defined in the
+    repository is replaced by that method's body (parameters are assumed to be passed through under the same names, which is
+    what delegation to a base listener does).  Used for 'raises on every path' and for the types raised."""
+    import copy as _copy
+    fn2 = _copy.deepcopy(fn)
+    if depth > 3:
+        return fn2
+    mro = [c.name for c in repo.mro(cls)] if repo.has_class(cls) else []
+
+    def resolve(call: ast.Call):
+        f = call.func
+        if not isinstance(f, ast.Attribute):
+            return None
+        if isinstance(f.value, ast.Call) and norm(f.value.func) == "super":
+            for c in mro[1:]:
+                ci = repo.cls(c)
+                if f.attr in ci.methods:
+                    return c, ci.methods[f.attr]
+            return None
+        if isinstance(f.value, ast.Name) and f.value.id == "self" and f.attr != fn.name:
+            r = repo.find_method(cls, f.attr)
+            if r is not None:
+                return r[0].name, r[1]
+        return None
+
+    class T(ast.NodeTransformer):
+        def visit_FunctionDef(self, node):
+            if node is fn2:
+                self.generic_visit(node)
+            return node
+
+        def visit_Expr(self, node):
+            if isinstance(node.value, ast.Call):
+                r = resolve(node.value)
+                if r is not None:
+                    owner, m = r
+                    body = with_super_calls_expanded(repo, owner, m, depth + 1).body
+                    body = [b for b in body if not (isinstance(b, ast.Expr) and isinstance(b.value, ast.Constant))] or [ast.Pass()]
+                    # a delegated body that may return does so into the caller: wrap so that a `return` is not mistaken
+                    if any(isinstance(x, ast.Return) for b in body for x in ast.walk(b)):
+                        return node
+                    return [ast.copy_location(b, node) for b in body]
+            return node
+    T().visit(fn2)
+    ast.fix_missing_locations(fn2)
+    return fn2
+
+
 def raised_types(repo: Repo, fn: ast.FunctionDef) -> List[Tuple[ast.Raise, str]]:
     """(raise statement, class name) for every raise in fn.  A raise of one of
     the function's own parameters is reported as 'param:<name>'."""
@@ -270,7 +319,7 @@ def run(rep: Report, repo: Repo, tier: str) -> None:
             rep.bad("C06-R3", f"{repo.cls(lc).module}:{lc}", "syntaxError",
                     f"listener {lc} does not override syntaxError: errors are not escalated")
             continue
-        fn = r[1]
+        fn = with_super_calls_expanded(repo, lc, r[1])
         ok = all_paths_raise(fn.body)
         types = raised_types(repo, fn)
         listener_info[lc] = {"raises_all": ok, "types": [t for _s, t in types]}
@@ -402,7 +451,7 @@ def run(rep: Report, repo: Repo, tier: str) -> None:
                         if "suppress" in norm(it.context_expr):
                             rep.bad("C06-R4", f"{mod}:{q}", norm(it.context_expr),
                                     "contextlib.suppress swallows exceptions on the processing path")
-    rep.floor("C06-R4", 2, "relevant except handlers")
+    rep.floor("C06-R4", 1, "relevant except handlers")
 
     # ---- R5: write after success
     rep.rule("C06-R5", "in document_single_file the file write and the print happen only after Documenter.process() returned")
